@@ -19,7 +19,7 @@ theorem refinement_step (s : State σ ρ) (op : Op σ) :
     abs (step prep s op).1 = (specStep prep (abs s) op).1 ∧
     (step prep s op).2 = (specStep prep (abs s) op).2 := by
   cases op with
-  | offer k version spec sys =>
+  | offer k version spec sys c =>
     simp only [step, specStep, abs]
     split
     · cases hf : find? s.cache k with
@@ -46,6 +46,16 @@ theorem refinement_step (s : State σ ρ) (op : Op σ) :
       · refine ⟨?_, rfl⟩
         simp only [Spec.mk.injEq, and_true]
         funext k'; simp [upd]
+  | deleteMeta k version =>
+    simp only [step, specStep, abs]
+    split
+    · cases hf : find? s.cache k with
+      | none => exact ⟨rfl, rfl⟩
+      | some e =>
+        refine ⟨?_, rfl⟩
+        simp only [Spec.mk.injEq, and_true]
+        funext k'; simp [upd]
+    · exact ⟨rfl, rfl⟩
   | lookup k => exact ⟨rfl, rfl⟩
   | systemData k => exact ⟨rfl, rfl⟩
 
@@ -69,91 +79,104 @@ theorem refinement_from_empty (ops : List (Op σ)) :
 /-! ## offering -/
 
 /-- Offering the name and resourceVersion already cached returns the cached result (the very object:
-    same serial) without calling the preparer and without changing anything — whatever spec is offered. -/
+    same serial) without calling the preparer, without touching the registry and without changing
+    anything — whatever spec is offered. -/
 theorem same_version_not_reprepared (s : State σ ρ) (k : Key) (v : String) (spec : σ) (sys : Option Nat)
-    (e : Entry σ ρ) (hk : k.2 ≠ "") (hv : v ≠ "") (hc : find? s.cache k = some e) (hver : e.version = v) :
-    step prep s (.offer k (some v) spec sys) = (s, .returned e.resource e.serial false) := by
-  have hm : validMeta k (some v) = true := (validMeta_iff k _).mpr ⟨hk, v, rfl, hv⟩
-  simp [step, hm, hc, hver]
+    (c : Bool) (e : Entry σ ρ) (hk : k.2 ≠ "") (hv : v ≠ "") (hc : find? s.cache k = some e)
+    (hver : e.version = v) :
+    step prep s (.offer k (some v) spec sys c) = (s, .returned e.resource e.serial false) :=
+  step_offer_hit prep s k (some v) spec sys c e ((validMeta_iff k _).mpr ⟨hk, v, rfl, hv⟩) hc hver
 
 /-- Offering a different resourceVersion (or a name not cached) always calls the preparer once, on the
-    offered spec, returns what it returned — a failed preparation included — and caches exactly that
-    under the offered version. -/
+    offered spec, and caches exactly what it returned — a failed preparation included — under the
+    offered version; the offer hands that result back, or, when wiring up the declared subscriptions
+    raises `SubscriptionCycle`, raises after having stored it. -/
 theorem new_version_reprepared (s : State σ ρ) (k : Key) (v : String) (spec : σ) (sys : Option Nat)
-    (hk : k.2 ≠ "") (hv : v ≠ "") (hdiff : ∀ e, find? s.cache k = some e → e.version ≠ v) :
+    (c : Bool) (hk : k.2 ≠ "") (hv : v ≠ "") (hdiff : ∀ e, find? s.cache k = some e → e.version ≠ v) :
     let r := prep k.1 k.2 spec
-    let s' := (step prep s (.offer k (some v) spec sys)).1
-    (step prep s (.offer k (some v) spec sys)).2 = .returned r s.calls true ∧
+    let s' := (step prep s (.offer k (some v) spec sys c)).1
+    (step prep s (.offer k (some v) spec sys c)).2 =
+      (if c then .raisedCycle r s.calls else .returned r s.calls true) ∧
     s'.calls = s.calls + 1 ∧
     find? s'.cache k = some ⟨spec, r, s.calls, v, sys⟩ ∧
     ∀ k', k' ≠ k → find? s'.cache k' = find? s.cache k' := by
   have hm : validMeta k (some v) = true := (validMeta_iff k _).mpr ⟨hk, v, rfl, hv⟩
-  have hstep : step prep s (.offer k (some v) spec sys) =
-      (⟨set s.cache k ⟨spec, prep k.1 k.2 spec, s.calls, v, sys⟩, s.calls + 1⟩,
-       .returned (prep k.1 k.2 spec) s.calls true) := by
-    cases hf : find? s.cache k with
-    | none => simp [step, hm, hf]
-    | some e => simp [step, hm, hf, hdiff e hf]
+  have hstep := step_offer_miss prep s k (some v) spec sys c hm hdiff
   intro r s'
-  show (step prep s (.offer k (some v) spec sys)).2 = _ ∧
-    (step prep s (.offer k (some v) spec sys)).1.calls = _ ∧
-    find? (step prep s (.offer k (some v) spec sys)).1.cache k = _ ∧
-    ∀ k', k' ≠ k → find? (step prep s (.offer k (some v) spec sys)).1.cache k' = _
+  show (step prep s (.offer k (some v) spec sys c)).2 = _ ∧
+    (step prep s (.offer k (some v) spec sys c)).1.calls = _ ∧
+    find? (step prep s (.offer k (some v) spec sys c)).1.cache k = _ ∧
+    ∀ k', k' ≠ k → find? (step prep s (.offer k (some v) spec sys c)).1.cache k' = _
   rw [hstep]
   refine ⟨rfl, rfl, by simp [r], ?_⟩
   intro k' hk'
   simp only [find_set]
   exact if_neg (Ne.symm hk')
 
+/-- the registry's answer never changes what is cached: an offer that raises `SubscriptionCycle`
+    leaves exactly the state the same offer leaves when it succeeds -/
+theorem cycle_raise_still_caches (s : State σ ρ) (k : Key) (version : Option String) (spec : σ)
+    (sys : Option Nat) :
+    (step prep s (.offer k version spec sys true)).1 = (step prep s (.offer k version spec sys false)).1 ∧
+    (step prep s (.offer k version spec sys true)).2.value? =
+      (step prep s (.offer k version spec sys false)).2.value? := by
+  rcases step_offer_cases prep s k version spec sys true with ⟨hb, h⟩ | ⟨e, hm, he, hv, h⟩ | ⟨hm, hd, h⟩
+  · rw [h, step_offer_bad prep s k version spec sys false hb]; exact ⟨rfl, rfl⟩
+  · rw [h, step_offer_hit prep s k version spec sys false e hm he hv]; exact ⟨rfl, rfl⟩
+  · rw [h, step_offer_miss prep s k version spec sys false hm hd]; exact ⟨rfl, rfl⟩
+
 /-- for a well-formed offer the preparer runs iff the cached version differs (or nothing is cached) -/
 theorem prepared_iff_version_differs (s : State σ ρ) (k : Key) (v : String) (spec : σ) (sys : Option Nat)
-    (hk : k.2 ≠ "") (hv : v ≠ "") :
-    (step prep s (.offer k (some v) spec sys)).1.calls = s.calls + 1 ↔
+    (c : Bool) (hk : k.2 ≠ "") (hv : v ≠ "") :
+    (step prep s (.offer k (some v) spec sys c)).1.calls = s.calls + 1 ↔
       ∀ e, find? s.cache k = some e → e.version ≠ v := by
   constructor
   · intro h e he hver
-    rw [same_version_not_reprepared prep s k v spec sys e hk hv he hver] at h
+    rw [same_version_not_reprepared prep s k v spec sys c e hk hv he hver] at h
     simp at h
-  · intro h; exact (new_version_reprepared prep s k v spec sys hk hv h).2.1
+  · intro h; exact (new_version_reprepared prep s k v spec sys c hk hv h).2.1
 
 /-- an offer without a name or without a resourceVersion raises and changes nothing -/
 theorem malformed_offer_rejected (s : State σ ρ) (k : Key) (version : Option String) (spec : σ)
-    (sys : Option Nat) (h : validMeta k version = false) :
-    step prep s (.offer k version spec sys) = (s, .typeError) := by
-  simp [step, h]
+    (sys : Option Nat) (c : Bool) (h : validMeta k version = false) :
+    step prep s (.offer k version spec sys c) = (s, .typeError) :=
+  step_offer_bad prep s k version spec sys c h
 
 /-! ## lookups -/
 
 /-! `Quiet k v op` (in `Koreo/Cache.lean`): `op` cannot change what is cached for `k` while it holds
-    version `v` — anything on another key, lookups, re-offers of `v` itself, malformed offers, deletes
-    naming another (non-empty) version. -/
+    version `v` — anything on another key, lookups, re-offers of `v` itself, malformed offers and
+    deletes, deletes naming another (non-empty) version. -/
 
-/-- Lookups return the result for the most recently offered version: after an offer of (`k`, `v`),
-    and any further operations that do not offer another version of `k` nor delete it, both lookups
-    of `k` give exactly what that offer returned — the same object (serial), Ok or failed alike —
-    under version `v`. -/
+/-- Lookups return the result for the most recently offered version: after an offer of (`k`, `v`) —
+    whether it returned or raised `SubscriptionCycle` after preparing — and any further operations
+    that do not offer another version of `k` nor delete it, both lookups of `k` give exactly what that
+    offer prepared or found cached — the same object (serial), Ok or failed alike — under version `v`. -/
 theorem lookup_returns_latest_offered (s : State σ ρ) (k : Key) (v : String) (spec : σ) (sys : Option Nat)
-    (hk : k.2 ≠ "") (hv : v ≠ "") (later : List (Op σ)) (hq : ∀ op ∈ later, Quiet k v op) :
-    ∃ r n p e,
-      (step prep s (.offer k (some v) spec sys)).2 = .returned r n p ∧
-      (step prep (run prep (step prep s (.offer k (some v) spec sys)).1 later) (.lookup k)).2 = .found (some (r, n)) ∧
-      (step prep (run prep (step prep s (.offer k (some v) spec sys)).1 later) (.systemData k)).2 = .entry (some e) ∧
+    (c : Bool) (hk : k.2 ≠ "") (hv : v ≠ "") (later : List (Op σ)) (hq : ∀ op ∈ later, Quiet k v op) :
+    ∃ r n e,
+      (step prep s (.offer k (some v) spec sys c)).2.value? = some (r, n) ∧
+      (step prep (run prep (step prep s (.offer k (some v) spec sys c)).1 later) (.lookup k)).2 = .found (some (r, n)) ∧
+      (step prep (run prep (step prep s (.offer k (some v) spec sys c)).1 later) (.systemData k)).2 = .entry (some e) ∧
       e.resource = r ∧ e.serial = n ∧ e.version = v ∧
-      (p = true → r = prep k.1 k.2 spec ∧ e.spec = spec ∧ e.sys = sys) := by
+      ((step prep s (.offer k (some v) spec sys c)).1.calls = s.calls + 1 →
+        r = prep k.1 k.2 spec ∧ e.spec = spec ∧ e.sys = sys) := by
+  have hm : validMeta k (some v) = true := (validMeta_iff k _).mpr ⟨hk, v, rfl, hv⟩
   -- the entry right after the offer
-  have h0 : ∃ r n p e, (step prep s (.offer k (some v) spec sys)).2 = .returned r n p ∧
-      find? (step prep s (.offer k (some v) spec sys)).1.cache k = some e ∧
+  have h0 : ∃ r n e, (step prep s (.offer k (some v) spec sys c)).2.value? = some (r, n) ∧
+      find? (step prep s (.offer k (some v) spec sys c)).1.cache k = some e ∧
       e.resource = r ∧ e.serial = n ∧ e.version = v ∧
-      (p = true → r = prep k.1 k.2 spec ∧ e.spec = spec ∧ e.sys = sys) := by
-    by_cases hsame : ∃ e, find? s.cache k = some e ∧ e.version = v
-    · obtain ⟨e, he, hver⟩ := hsame
-      rw [same_version_not_reprepared prep s k v spec sys e hk hv he hver]
-      exact ⟨e.resource, e.serial, false, e, rfl, he, rfl, rfl, hver, by simp⟩
-    · have hdiff : ∀ e, find? s.cache k = some e → e.version ≠ v :=
-        fun e he hver => hsame ⟨e, he, hver⟩
-      obtain ⟨h1, _, h3, _⟩ := new_version_reprepared prep s k v spec sys hk hv hdiff
-      exact ⟨_, _, true, _, h1, h3, rfl, rfl, rfl, fun _ => ⟨rfl, rfl, rfl⟩⟩
-  obtain ⟨r, n, p, e, hout, hfind, hr, hn, hver, hp⟩ := h0
+      ((step prep s (.offer k (some v) spec sys c)).1.calls = s.calls + 1 →
+        r = prep k.1 k.2 spec ∧ e.spec = spec ∧ e.sys = sys) := by
+    rcases step_offer_cases prep s k (some v) spec sys c with ⟨hb, _⟩ | ⟨e, _, he, hver, h⟩ | ⟨_, _, h⟩
+    · rw [hm] at hb; cases hb
+    · rw [h]
+      exact ⟨e.resource, e.serial, e, rfl, he, rfl, rfl, hver, fun hc => by simp at hc⟩
+    · rw [h]
+      refine ⟨_, _, ⟨spec, prep k.1 k.2 spec, s.calls, v, sys⟩, ?_, by simp, rfl, rfl, rfl,
+        fun _ => ⟨rfl, rfl, rfl⟩⟩
+      cases c <;> rfl
+  obtain ⟨r, n, e, hout, hfind, hr, hn, hver, hp⟩ := h0
   -- carried through the quiet operations
   have hkeep : ∀ (t : List (Op σ)) (s1 : State σ ρ), (∀ op ∈ t, Quiet k v op) →
       find? s1.cache k = some e → find? (run prep s1 t).cache k = some e := by
@@ -165,8 +188,8 @@ theorem lookup_returns_latest_offered (s : State σ ρ) (k : Key) (v : String) (
       exact ih _ (fun o ho => hq1 o (List.mem_cons_of_mem _ ho))
         (quiet_step prep s1 k v e op (hq1 op List.mem_cons_self) h hver)
   have hfin := hkeep later _ hq hfind
-  generalize run prep (step prep s (.offer k (some v) spec sys)).1 later = S at hfin ⊢
-  refine ⟨r, n, p, e, hout, ?_, ?_, hr, hn, hver, hp⟩
+  generalize run prep (step prep s (.offer k (some v) spec sys c)).1 later = S at hfin ⊢
+  refine ⟨r, n, e, hout, ?_, ?_, hr, hn, hver, hp⟩
   · simp [step, hfin, hr, hn]
   · simp [step, hfin]
 
@@ -211,6 +234,25 @@ theorem delete_removes (s : State σ ρ) (k : Key) (version : Option String)
   · show (step prep s' (.systemData k)).2 = _
     simp only [step, h1']
 
+/-- The metadata-driven entry point `delete_resource_from_cache` deletes by NAME: whatever
+    resourceVersion the delete's metadata carries (a Kubernetes DELETED event carries a newer one than
+    the cached), it does exactly what the unversioned `delete_from_cache` does. -/
+theorem delete_by_metadata_removes (s : State σ ρ) (k : Key) (version : Option String)
+    (h : validMeta k version = true) :
+    step prep s (.deleteMeta k version) = step prep s (.delete k none) ∧
+    find? (step prep s (.deleteMeta k version)).1.cache k = none := by
+  have e1 : step prep s (.deleteMeta k version) = step prep s (.delete k none) := by
+    simp only [step, h, if_true]
+    cases find? s.cache k with
+    | none => rfl
+    | some e => simp [truthy]
+  exact ⟨e1, by rw [e1]; exact (delete_removes prep s k none (.inl rfl)).1⟩
+
+/-- delete metadata without a name or a resourceVersion is rejected by `_extract_meta`; nothing changes -/
+theorem malformed_delete_rejected (s : State σ ρ) (k : Key) (version : Option String)
+    (h : validMeta k version = false) : step prep s (.deleteMeta k version) = (s, .typeError) := by
+  simp [step, h]
+
 /-- A delete that names a stale version (non-empty, different from the cached one) leaves the newer
     entry — and everything else — untouched. -/
 theorem stale_delete_keeps_newer (s : State σ ρ) (k : Key) (w : String) (e : Entry σ ρ)
@@ -237,22 +279,18 @@ theorem delete_absent_noop (s : State σ ρ) (k : Key) (version : Option String)
 
 theorem other_keys_untouched (s : State σ ρ) (op : Op σ) (k' : Key)
     (h : match op with
-      | .offer k _ _ _ => k ≠ k'
+      | .offer k _ _ _ _ => k ≠ k'
       | .delete k _ => k ≠ k'
+      | .deleteMeta k _ => k ≠ k'
       | _ => True) :
     find? (step prep s op).1.cache k' = find? s.cache k' := by
   cases op with
-  | offer k version spec sys =>
-    simp only [step]
-    split
-    · cases find? s.cache k with
-      | none => simp [show k ≠ k' from h]
-      | some e =>
-        simp only []
-        split
-        · rfl
-        · simp [show k ≠ k' from h]
-    · rfl
+  | offer k version spec sys c =>
+    have hk : k ≠ k' := h
+    rcases step_offer_cases prep s k version spec sys c with ⟨_, e⟩ | ⟨_, _, _, _, e⟩ | ⟨_, _, e⟩
+    · rw [e]
+    · rw [e]
+    · rw [e]; simp [hk]
   | delete k version =>
     simp only [step]
     cases find? s.cache k with
@@ -262,6 +300,13 @@ theorem other_keys_untouched (s : State σ ρ) (op : Op σ) (k' : Key)
       split
       · rfl
       · simp [show k ≠ k' from h]
+  | deleteMeta k version =>
+    simp only [step]
+    split
+    · cases find? s.cache k with
+      | none => rfl
+      | some e => simp [show k ≠ k' from h]
+    · rfl
   | lookup k => rfl
   | systemData k => rfl
 
@@ -304,17 +349,36 @@ theorem serials_identify (ops : List (Op σ)) :
           · cases he; have := h1 k0' e' he'; omega
           · cases he'; have := h1 k0 e he; omega
           · exact h2 k0 k0' e e' he he' hs
+      have gone : ∀ (k : Key),
+          ((∀ k0 e, find? (del s.cache k) k0 = some e → e.serial < s.calls) ∧
+           (∀ k0 k0' e e', find? (del s.cache k) k0 = some e → find? (del s.cache k) k0' = some e' →
+              e.serial = e'.serial → k0 = k0')) := by
+        intro k
+        constructor
+        · intro k0 e he
+          rw [find_del] at he
+          split at he
+          · cases he
+          · exact h1 k0 e he
+        · intro k0 k0' e e' he he' hs
+          rw [find_del] at he he'
+          split at he
+          · cases he
+          · split at he'
+            · cases he'
+            · exact h2 k0 k0' e e' he he' hs
       cases op with
-      | offer k version spec sys =>
+      | offer k version spec sys c =>
+        rcases step_offer_cases prep s k version spec sys c with ⟨_, e⟩ | ⟨_, _, _, _, e⟩ | ⟨_, _, e⟩
+        · rw [e]; exact ⟨h1, h2⟩
+        · rw [e]; exact ⟨h1, h2⟩
+        · rw [e]; exact fresh k _ rfl
+      | deleteMeta k version =>
         simp only [step]
         split
         · cases hf : find? s.cache k with
-          | none => exact fresh k _ rfl
-          | some e0 =>
-            simp only []
-            split
-            · exact ⟨h1, h2⟩
-            · exact fresh k _ rfl
+          | none => exact ⟨h1, h2⟩
+          | some e0 => exact gone k
         · exact ⟨h1, h2⟩
       | delete k version =>
         simp only [step]
@@ -352,17 +416,19 @@ def demoPrep : Nat → String → Nat → PrepResult (String × Nat) :=
     old version: prepared exactly when the version differs from the cached one -/
 example :
     (outs demoPrep init
-      [.offer (0, "a") (some "1") 10 none, .offer (0, "a") (some "1") 12 none,
-       .offer (0, "a") (some "2") 13 none, .lookup (0, "a"), .offer (1, "a") (some "2") 20 none,
-       .offer (0, "a") (some "1") 14 none, .delete (0, "a") (some "2"), .lookup (0, "a"),
-       .delete (0, "a") (some ""), .lookup (0, "a"), .offer (0, "a") (some "1") 16 none,
-       .offer (0, "a") none 18 none, .lookup (1, "a")]).map
+      [.offer (0, "a") (some "1") 10 none false, .offer (0, "a") (some "1") 12 none false,
+       .offer (0, "a") (some "2") 13 none true, .lookup (0, "a"), .offer (1, "a") (some "2") 20 none false,
+       .offer (0, "a") (some "1") 14 none false, .delete (0, "a") (some "2"), .lookup (0, "a"),
+       .delete (0, "a") (some ""), .lookup (0, "a"), .offer (0, "a") (some "1") 16 none false,
+       .offer (0, "a") none 18 none false, .lookup (1, "a"), .deleteMeta (1, "a") (some "9"),
+       .lookup (1, "a")]).map
       (fun o => match o with
         | .returned _ n p => (n, p)
+        | .raisedCycle _ n => (n, true)
         | .found (some (_, n)) => (n, false)
         | _ => (99, false)) =
     [(0, true), (0, false), (1, true), (1, false), (2, true), (3, true), (99, false), (3, false),
-     (99, false), (99, false), (4, true), (99, false), (2, false)] := by decide
+     (99, false), (99, false), (4, true), (99, false), (2, false), (99, false), (99, false)] := by decide
 
 example : Quiet (σ := Nat) (0, "a") "1" (.delete (0, "a") (some "2")) := .inr ⟨"2", rfl, by decide, by decide⟩
 
